@@ -47,7 +47,13 @@ def main_debouncer(prog):
 
     def main(s):
         now = lambda: s.now  # noqa: E731
-        deb = W.event_debouncer.EventDebouncer(prog["interval"], lambda evs: s.record("batch", (list(evs), now())))
+        def callback(evs):
+            s.record("batch", (list(evs), now()))
+            if prog.get("cb_time"):
+                tm.sleep(prog["cb_time"])  # a slow callback (e.g. a restart): events may arrive while it runs
+            s.record("batch_done", now())
+
+        deb = W.event_debouncer.EventDebouncer(prog["interval"], callback)
         deb.start()
 
         def feeder():
@@ -63,7 +69,7 @@ def main_debouncer(prog):
             tm.sleep(prog["stop_at"])
         else:
             f.join()
-            tm.sleep(2 * I + 1)
+            tm.sleep(2 * I + 1 + 6 * (prog.get("cb_time") or 0))
             s.record("settled", now())
         s.record("stop_call", now())
         deb.stop()
@@ -116,6 +122,12 @@ def check_debouncer(prog, r, s):
             raise Violation(f"events {missing} were handed to the debouncer, none arrived for more than 2 intervals, but they never reached the callback before stop() (batches {batches}; program {prog})", "debounce-lost")
     # classes
     cl = ["debouncer"]
+    if prog.get("cb_time"):
+        cl.append("slow-callback")
+        done = [p for seq, tid, tag, p in s.log if tag == "batch_done"]
+        starts = [t for _, t, _ in batches]
+        if any(any(st_ <= a < dn for st_, dn in zip(starts, done)) for a in arr.values()):
+            cl.append("event-during-callback")
     if prog["events"] and prog["events"][0] == 0:
         cl.append("event-before-first-wait-possible")
     if prog["stop_at"] == 0:
@@ -124,7 +136,7 @@ def check_debouncer(prog, r, s):
         cl.append("gap-near-interval")
     if r.preemptions:
         cl.append(f"preemptions={min(r.preemptions, 3)}")
-    return "event-before-first-wait-possible" in cl or "stop-before-first-wait-possible" in cl or "gap-near-interval" in cl, cl
+    return "event-before-first-wait-possible" in cl or "stop-before-first-wait-possible" in cl or "gap-near-interval" in cl or "event-during-callback" in cl, cl
 
 
 # ============================================================================ auto-restart trick
@@ -218,6 +230,19 @@ def check_autorestart(prog, r, s):
                 f"{spawns - 1} restarts for {matching} triggering events and {self_exits} self-exits (restart_count {trick.restart_count}; log {sorted(table.log)}; program {prog})",
                 "restart-count",
             )
+    if settled:
+        # every triggering event is followed by a restart: a child is started at or after the event (after the
+        # debounce interval when debouncing) - also for events that arrive while a restart is under way
+        for i, matching, t in events:
+            if not matching:
+                continue
+            need = t + (prog["debounce"] or 0) - 1e-9
+            if not any(p.spawned >= need for p in table.procs):
+                raise Violation(
+                    f"triggering event #{i} at {t} was never followed by a restart (children started at {[p.spawned for p in table.procs]}; "
+                    f"log {sorted(table.log)}; program {prog})",
+                    "event-without-restart",
+                )
     cl = ["autorestart", "debounced" if prog["debounce"] else "undebounced"]
     if calm:
         cl.append("calm")
@@ -297,6 +322,7 @@ def programs(draw):
             "interval": draw(st.sampled_from([I, I, I, 0])),
             "events": [draw(st.sampled_from(GAPS_D)) for _ in range(n)],
             "stop_at": draw(st.sampled_from([None, None, 0.0, I / 2, I, 2 * I + EPS])),
+            "cb_time": draw(st.sampled_from([0, 0, I / 2, I + EPS])),
         }
     if kind == "autorestart":
         calm = draw(st.booleans())
@@ -338,6 +364,7 @@ FIXED = [
     {"kind": "debouncer", "interval": I, "events": [I / 2, I + EPS, I - EPS], "stop_at": None},
     {"kind": "debouncer", "interval": I, "events": [0.0], "stop_at": 0.0},
     {"kind": "debouncer", "interval": 0, "events": [0.0, 0.0, I], "stop_at": None},
+    {"kind": "debouncer", "interval": I, "events": [0.0, I + I / 2], "stop_at": None, "cb_time": I},
     {"kind": "autorestart", "calm": False, "events": [(0.5, True)], "children": [{"exit_after": 0.5, "on_sigint": ("exit", 0.1)}], "debounce": 0, "restart_on_exit": True, "stop_at": None},
     {"kind": "autorestart", "calm": False, "events": [(0.0, True), (0.0, True)], "children": [{"exit_after": None, "on_sigint": ("exit", 0.0)}], "debounce": 0, "restart_on_exit": True, "stop_at": 0.0},
     {"kind": "autorestart", "calm": False, "events": [(0.1, True)], "children": [{"exit_after": None, "on_sigint": "ignore"}], "debounce": 1, "restart_on_exit": False, "stop_at": 1.1},
